@@ -139,9 +139,14 @@ func (s *Server) serve(ctx context.Context, listener net.Listener, handler Modbu
 
 	s.mu.Lock()
 	s.listener = listener
+	isShutdown := s.isShutdown.Load()
 	s.mu.Unlock()
 	l := onceCloseListener{Listener: listener}
 	defer l.Close()
+	if isShutdown {
+		// Shutdown was called before this listener could be given to it
+		return ErrServerClosed
+	}
 	// Accept does not observe the context, closing the listener is the only way to unblock it
 	stopCloseOnCancel := context.AfterFunc(ctx, func() { _ = l.Close() })
 	defer stopCloseOnCancel()
@@ -329,7 +334,10 @@ func (s *Server) Shutdown(ctx context.Context) error {
 	defer s.mu.Unlock()
 	s.isShutdown.Store(true)
 
-	err := s.listener.Close()
+	var err error
+	if s.listener != nil { // serve may not have started yet
+		err = s.listener.Close()
+	}
 
 	timer := time.NewTimer(50 * time.Millisecond)
 	defer timer.Stop()
